@@ -446,13 +446,14 @@ class DatasetProcessor:
                     self.reference_record_dict = Fasta(self.args.reference, indexname=args.fai_file_name)
                 except UnsupportedCompressionFormat:
                     gunzipped_reference = os.path.join(args.output, ref_name)
-                    if not os.path.exists(gunzipped_reference) or not self.args.resume:
-                        # unpack under a temporary name: an interrupted run must not leave a truncated reference behind
-                        tmp_gunzipped_reference = gunzipped_reference + ".tmp"
-                        with open(tmp_gunzipped_reference, "w") as outf:
-                            shutil.copyfileobj(gzip.open(self.args.reference, "rt"), outf)
-                        os.rename(tmp_gunzipped_reference, gunzipped_reference)
-                        logger.info("Loading uncompressed reference from " + gunzipped_reference)
+                    # always unpack, also when resuming: a copy found in the output folder may stem from an earlier run
+                    # with another reference of the same name (it is never removed)
+                    # unpack under a temporary name: an interrupted run must not leave a truncated reference behind
+                    tmp_gunzipped_reference = gunzipped_reference + ".tmp"
+                    with open(tmp_gunzipped_reference, "w") as outf:
+                        shutil.copyfileobj(gzip.open(self.args.reference, "rt"), outf)
+                    os.rename(tmp_gunzipped_reference, gunzipped_reference)
+                    logger.info("Loading uncompressed reference from " + gunzipped_reference)
                     self.args.reference = gunzipped_reference
                     self.reference_record_dict = Fasta(self.args.reference, indexname=args.fai_file_name)
             else:
